@@ -42,15 +42,30 @@ def run_serial(case):
     from deephyper.evaluator import SerialEvaluator
 
     events = {}
+    returned = []
 
     async def run_fn(job):
         jid = int(job.id.split(".")[1])
         ev = events.setdefault(jid, asyncio.Event())
         await ev.wait()
+        returned.append(jid)
         return fval(job.parameters["x"])
 
     evaluator = SerialEvaluator(run_fn, num_workers=case["workers"])
-    return drive(evaluator, case, events=events)
+    return drive(evaluator, case, events=events, returned=returned)
+
+
+async def _idle(returned):
+    """Let the loop run until no run-function has returned for a few ticks (bounded)."""
+    quiet, n = 0, len(returned)
+    for _ in range(400):
+        await asyncio.sleep(0)
+        if len(returned) == n:
+            quiet += 1
+            if quiet >= 6:
+                return
+        else:
+            quiet, n = 0, len(returned)
 
 
 async def _conductor(events, groups, pause):
@@ -61,7 +76,7 @@ async def _conductor(events, groups, pause):
             events.setdefault(j, asyncio.Event()).set()
 
 
-def drive(evaluator, case, events=None):
+def drive(evaluator, case, events=None, returned=None):
     """Executes case['ops'] and returns (history for the model, flags)."""
     hist = []
     inflight = []  # ids the harness knows to be in flight (its own bookkeeping, only used to build release groups)
@@ -136,6 +151,14 @@ def drive(evaluator, case, events=None):
                 except Exception as e:
                     flags["error"] = repr(e)
                     ev = [2, [10 ** 6], [10 ** 6]]  # impossible ids: rejected with clause close_ledger
+            elif kind == "settle":
+                # the caller lets the evaluator's loop run until idle: every run-function that has returned by then belongs to a
+                # finished task, which the next gather must hand back / the next close must record as DONE
+                g = []
+                if returned is not None and evaluator.loop is not None and not evaluator.loop.is_closed():
+                    evaluator.loop.run_until_complete(_idle(returned))
+                    g = [j for j in returned if j in inflight]
+                ev = [5, g]
             elif kind == "dump":
                 evaluator.dump_jobs_done_to_csv(tmp.name)
                 path = os.path.join(tmp.name, "results.csv")
@@ -249,8 +272,12 @@ def gen_history(rng, maxops, close_p=0.15):
             x += k
             inflight += k
         elif r < 0.3 + close_p:
+            if rng.random() < 0.4:
+                ops.append(["settle"])
             ops.append(["close"])
             inflight = 0
+        elif r < 0.34 + close_p:
+            ops.append(["settle"])
         elif r < 0.55 + close_p / 2:
             ops.append(["dump"])
         else:
@@ -276,6 +303,8 @@ def gen_serial(count):
         # the shortest history that needs a usable evaluator after close comes first
         yield dict(workers=1, ops=[["submit", [0]], ["close"], ["submit", [1]], ["gather", True, 1, [], 1]])
         yield dict(workers=2, ops=[["submit", [0, 1, 2]], ["gather", False, 1, [[0, 1]], 1], ["close"], ["dump"], ["submit", [3]], ["gather", False, 2, [], 0], ["close"], ["dump"]])
+        # a job that finishes while the loop is still running after a BATCH gather was satisfied, then close
+        yield dict(workers=3, ops=[["submit", [0, 1, 2]], ["gather", False, 1, [[0], [1]], 1], ["settle"], ["close"], ["dump"]])
         n = count * (4 if tier == "search" else 1)
         for _ in range(n):
             yield dict(workers=rng.choice([1, 1, 2, 3, 4]), ops=gen_history(rng, 6 if tier == "search" else 12))
